@@ -290,6 +290,11 @@ pub fn run(sink: &mut Sink, thorough: bool, seed: u64) {
         let x = vec_kind(r, lx, 4); let y = vec_kind(r, ly, 0);
         emit(sink, "kmul", &[fl(&x), fl(&y)], "low-half-zero"); emit(sink, "kmul", &[fl(&y), fl(&x)], "low-half-zero"); emit(sink, "l.imul", &[fl(&x), fl(&y)], "low-half-zero");
     }
+    // the witnesses of Props.C07.c07_karatsuba_panics, replayed on the crate
+    emit(sink, "kmul", &[fl(&vec![1u64; 32]), fl(&vec![1u64; 65])], "witness");
+    emit(sink, "kmul", &[fl(&[vec![0u64; 17], vec![1u64; 16]].concat()), fl(&vec![1u64; 33])], "witness");
+    emit(sink, "t.imul_pow5", &[fl(&vec![1u64; 37]), d(2048)], "witness");
+    emit(sink, "kmul", &[fl(&vec![u64::MAX; 33]), fl(&vec![u64::MAX; 33])], "witness-ok");
     emit(sink, "kmul", &[fl(&[]), fl(&vec_kind(r, cut + 1, 0))], "empty-x");
     emit(sink, "kuneven", &[fl(&[]), fl(&[1, 2, 3])], "empty-x");
     for m in 0..5usize { emit(sink, "ksplit", &[fl(&[1, 2, 3]), d(m)], "split"); }
